@@ -22,18 +22,78 @@
 #include "decode.h"
 #include "scantab.h"
 
-/* main.c is not linked */
+/* main.c is not linked.  decoder_init() asks for its 3.6 MB block array
+   through xmalloc() for every block; the sanitizer allocators map, poison and
+   unmap such a block in ~0.5 ms, which made the sanitizer builds of the
+   enumerations below 50x slower than the code under test.  The one big block
+   is therefore kept and handed out again; under MemorySanitizer the part the
+   previous user may have written is poisoned again first, so a read of an
+   entry that the current block did not write is still reported. */
+#if defined(__has_feature)
+#if __has_feature(memory_sanitizer)
+#include <sanitizer/msan_interface.h>
+#define CX_POISON(p, n) __msan_poison(p, n)
+#endif
+#endif
+#ifndef CX_POISON
+#define CX_POISON(p, n) ((void)0)
+#endif
+#define NBIG 3
+static struct { void *p; size_t size, dirty; int busy; } big[NBIG];
+
 void *
 xmalloc(size_t n)
 {
-  void *p = malloc(n);
+  void *p;
+  if (n >= (1u << 20)) {
+    int i;
+    for (i = 0; i < NBIG; i++)
+      if (big[i].p && !big[i].busy && big[i].size == n) {
+        CX_POISON(big[i].p, big[i].dirty < n ? big[i].dirty : n);
+        big[i].busy = 1;
+        return big[i].p;
+      }
+    for (i = 0; i < NBIG; i++)
+      if (!big[i].p) {
+        big[i].p = malloc(n);
+        if (!big[i].p)
+          abort();
+        big[i].size = n;
+        big[i].busy = 1;
+        return big[i].p;
+      }
+  }
+  p = malloc(n);
   if (!p)
     abort();
   return p;
 }
 
+/* give back ds->tt: `words' = number of entries that may have been written */
+static void
+cx_free_tt(uint32_t *tt, size_t words)
+{
+  int i;
+  for (i = 0; i < NBIG; i++)
+    if (tt && (void *)tt == big[i].p) {
+      big[i].dirty = words * 4 + 4096;
+      big[i].busy = 0;
+      return;
+    }
+  free(tt);
+}
+
+static void
+cx_decoder_free(struct decoder_state *ds)
+{
+  cx_free_tt(ds->tt, 900000);     /* state unknown (error path): everything may be dirty */
+  ds->tt = NULL;
+  free(ds->internal_state);
+}
+
 static unsigned long nviol;
 static int tier_thorough;
+static int tier_san;           /* reduced scopes for the sanitizer builds' quick pass (C08) */
 
 #define VIOL(...) do { if (nviol++ < 20) { printf("VIOL "); printf(__VA_ARGS__); printf("\n"); } } while (0)
 
@@ -376,7 +436,7 @@ leg_c04(void)
   static const size_t caps_big[] = { 255, 256, 257, 258, 259, 260, 261, 262, 263, 264, 265, 266, 267, 268, 269, 270,
                                      515, 516, 517, 518, 519, 520, 521, 522, 523, 524, 525 };
   static const int runlens[] = { 1, 2, 3, 4, 5, 6, 254, 255, 256, 257, 258, 259, 260, 261, 262, 263, 264, 518, 519, 777 };
-  unsigned maxlen = tier_thorough ? 13 : 10, len;
+  unsigned maxlen = tier_thorough ? 13 : tier_san ? 8 : 10, len;
   size_t m;
   uint8_t buf[4096];
   /* all strings over {a,b} up to maxlen, every capacity 1..40, every cut into <= 3 pieces */
@@ -394,7 +454,7 @@ leg_c04(void)
     }
   }
   /* strings over {a,b,c} up to 8 (thorough) / 6 */
-  for (len = 1; len <= (tier_thorough ? 8u : 6u); len++) {
+  for (len = 1; len <= (tier_thorough ? 8u : tier_san ? 5u : 6u); len++) {
     unsigned long v, nv = 1;
     unsigned i;
     for (i = 0; i < len; i++) nv *= 3;
@@ -415,6 +475,7 @@ leg_c04(void)
           size_t n = 0, a, ci;
           if (j == nr && k != nr) continue;
           if (!tier_thorough && k != nr && (i + j + k) % 3) continue;
+          if (tier_san && (k != nr ? (i + 2 * j + 3 * k) % 9 : (i + j) % 2)) continue;
           memset(buf + n, 'x', runlens[i]); n += runlens[i];
           if (j < nr) { memset(buf + n, 'y', runlens[j]); n += runlens[j]; }
           if (k < nr) { memset(buf + n, 'x', runlens[k]); n += runlens[k]; }
@@ -607,7 +668,7 @@ decode_block(const uint8_t *blk, size_t blen, uint8_t *out, size_t *outn, uint32
     rv = retrieve(&ds, &bs);
   }
   if (rv != OK) {
-    decoder_free(&ds);
+    cx_decoder_free(&ds);
     free(w);
     return rv;
   }
@@ -624,7 +685,7 @@ decode_block(const uint8_t *blk, size_t blen, uint8_t *out, size_t *outn, uint32
   }
   *outn = o;
   *crc = ds.crc;
-  free(ds.tt);
+  cx_free_tt(ds.tt, ds.block_size + 16);
   free(w);
   return rv;
 }
@@ -679,7 +740,7 @@ static void
 leg_c01(void)
 {
   uint8_t buf[2400];
-  unsigned len, maxlen = tier_thorough ? 13 : 10;
+  unsigned len, maxlen = tier_thorough ? 13 : tier_san ? 7 : 10;
   size_t m;
   static const int runlens[] = { 1, 2, 3, 4, 5, 6, 254, 255, 256, 257, 258, 259, 260, 261, 262, 263, 264, 518, 519, 777 };
   for (len = 1; len <= maxlen; len++) {
@@ -697,7 +758,7 @@ leg_c01(void)
       }
     }
   }
-  for (len = 1; len <= (tier_thorough ? 8u : 6u); len++) {
+  for (len = 1; len <= (tier_thorough ? 8u : tier_san ? 5u : 6u); len++) {
     unsigned long v, nv = 1;
     unsigned i;
     for (i = 0; i < len; i++) nv *= 3;
@@ -716,6 +777,7 @@ leg_c01(void)
           size_t n = 0;
           if (j == nr && k != nr) continue;
           if (!tier_thorough && k != nr && (i + 2 * j + k) % 4) continue;
+          if (tier_san && k != nr && (i + j + 3 * k) % 3) continue;
           memset(buf + n, 'x', runlens[i]); n += runlens[i];
           if (j < nr) { memset(buf + n, 'y', runlens[j]); n += runlens[j]; }
           if (k < nr) { memset(buf + n, 'x', runlens[k]); n += runlens[k]; }
@@ -821,7 +883,7 @@ c09_block(const uint32_t *words, size_t nw, unsigned live0, uint64_t buff0, cons
     ref.rv = rv;
     ref.crc = ds.crc;
   }
-  decoder_free(&ds);
+  cx_decoder_free(&ds);
   /* every 1-, 2-, 3-piece split of the input at word granularity */
   step = nw > 60 ? nw / 40 : 1;
   for (c1 = 1; c1 < nw; c1 += (nw > 200 ? step : 1)) {
@@ -831,10 +893,10 @@ c09_block(const uint32_t *words, size_t nw, unsigned live0, uint64_t buff0, cons
       if (nw > 24 && c2 && (c2 - c1) > 3 && (nw - c2) > 3 && c2 % 5) continue;
       rv = retr_split(words, nw, live0, buff0, c1, c2, &d2, &ep);
       c09_retr_runs++;
-      if (rv == -100) { decoder_free(&d2); return; }
+      if (rv == -100) { cx_decoder_free(&d2); return; }
       if ((rv == OK) != (ref.rv == OK || ref.rv == ERR_RUNLEN) && !(rv != OK && ref.rv != OK && ref.rv != ERR_RUNLEN)) {
         VIOL("retrieve(%s): split at words %zu,%zu gives %d, one-shot gives %d", name, c1, c2, rv, ref.rv);
-        decoder_free(&d2);
+        cx_decoder_free(&d2);
         return;
       }
       if (rv != OK && ref.rv != OK && ref.rv != ERR_RUNLEN && rv != ref.rv && !(rv == ERR_EOF || ref.rv == ERR_EOF)) {
@@ -844,7 +906,7 @@ c09_block(const uint32_t *words, size_t nw, unsigned live0, uint64_t buff0, cons
         if (d2.block_size != ref.block_size || d2.bwt_idx != ref.bwt_idx || d2.rand != ref.rand || ep != ref.endpos) {
           VIOL("retrieve(%s): split at %zu,%zu: block size %u/%u index %u/%u end bit %u/%u", name, c1, c2, d2.block_size,
                ref.block_size, d2.bwt_idx, ref.bwt_idx, ep, ref.endpos);
-          decoder_free(&d2);
+          cx_decoder_free(&d2);
           return;
         }
         if (c2 == 0 || (c1 + c2) % 7 == 0) {
@@ -859,13 +921,13 @@ c09_block(const uint32_t *words, size_t nw, unsigned live0, uint64_t buff0, cons
           if (ref.rv == ERR_RUNLEN ? r2 != ERR_RUNLEN && r2 != MORE
               : (r2 != ref.rv || got != ref.outn || memcmp(o, ref.out, got) != 0 || (r2 == OK && d2.crc != ref.crc))) {
             VIOL("retrieve(%s): split at %zu,%zu decodes to different bytes (%zu vs %zu, rv %d vs %d)", name, c1, c2, got, ref.outn, r2, ref.rv);
-            free(o); decoder_free(&d2);
+            free(o); cx_decoder_free(&d2);
             return;
           }
           free(o);
         }
       }
-      decoder_free(&d2);
+      cx_decoder_free(&d2);
     }
   }
   /* emit(): every composition of the output into buffer sizes (small outputs),
@@ -881,7 +943,7 @@ c09_block(const uint32_t *words, size_t nw, unsigned live0, uint64_t buff0, cons
       size_t pos = 0, piece = 0;
       int r2 = MORE, k = 0;
       unsigned ep2;
-      if (retr_split(words, nw, live0, buff0, 0, 0, &d2, &ep2) != OK) { free(o); decoder_free(&d2); break; }
+      if (retr_split(words, nw, live0, buff0, 0, 0, &d2, &ep2) != OK) { free(o); cx_decoder_free(&d2); break; }
       decode(&d2);
       c09_emit_runs++;
       while (r2 == MORE) {
@@ -915,7 +977,7 @@ c09_block(const uint32_t *words, size_t nw, unsigned live0, uint64_t buff0, cons
         VIOL("emit(%s): buffers pattern %zu gives rv %d, %zu bytes, crc %08x; one-shot rv %d, %zu bytes, crc %08x", name, t, r2, pos,
              d2.crc, ref.rv, n, ref.crc);
       free(o);
-      free(d2.tt);
+      cx_free_tt(d2.tt, 900000);
       free(d2.internal_state);
     }
   }
@@ -967,7 +1029,7 @@ leg_c09(const char *path)
         b2 = bs;
         rv = retrieve(&ds, &b2);
         if (rv == MORE) { b2.data = b2.limit = NULL; b2.eof = 1; rv = retrieve(&ds, &b2); }
-        decoder_free(&ds);
+        cx_decoder_free(&ds);
         if (rv != OK) break;
         if (b2.data == NULL) break;
         bs = b2;
@@ -992,6 +1054,7 @@ main(int argc, char **argv)
   setvbuf(stdout, NULL, _IOLBF, 0);
   rcrc_init();
   tier_thorough = !strcmp(argv[2], "thorough");
+  tier_san = !strcmp(argv[2], "san");
   if (!strcmp(argv[1], "c14")) leg_c14();
   else if (!strcmp(argv[1], "c04")) leg_c04();
   else if (!strcmp(argv[1], "c20")) leg_c20();
